@@ -16,7 +16,7 @@ ID = 'C04'
 
 MANIFEST = {
     'engine': 'symx',
-    'text': 'Bounded symbolic model checking of the real stratified_subsampling / estimator source with the contents of np.empty modelled as arbitrary values: for all vectors within the bound and all ratios k/8, z3 shows (1) no never-written cell of the index buffer is read and every index is in range, (2) the sampled rows are exactly the per-stratum prefixes with quota floor(floor(r*n)/#values) (all rows when 0), (3) the score is unchanged for every feature vector that agrees on the sampled rows. (1) implies the result cannot depend on allocator history. Memory-safety counterexamples are replayed in fresh interpreters after poisoning numba\'s allocator with different byte patterns.',
+    'text': 'Bounded symbolic model checking of the real stratified_subsampling / estimator source with the contents of np.empty modelled as arbitrary values: for all vectors within the bound and all ratios k/8, z3 shows (1) no never-written cell of the index buffer is read and every index is in range, (2) the sampled rows are exactly the per-stratum prefixes with quota floor(floor(r*n)/#values) (all rows when 0), (3) the score is unchanged for every feature vector that agrees on the sampled rows. (1) implies the result cannot depend on allocator history. Memory-safety counterexamples are replayed in fresh interpreters after poisoning numba\'s allocator with different byte patterns. Targets with 33..64 strata are explored with a concrete target vector, a symbolic feature vector and solver-chosen tie orders of every sort not requested stable; the sample is captured through the estimator itself, whatever the signature of the internal sampling helper.',
     'note': 'Targets with 33..64 strata are covered with a concrete target, a symbolic feature vector and solver-chosen tie orders for unstable sorts. The real allocator is replaced by "any bytes"; ratios restricted to k/8 (exact in float32 so int(r*n) agrees with the compiled code); exact reals; n<=4 quick, n<=5/6 thorough.',
     'technique': 'symbolic execution of the real Python source with z3, uninitialised cells as fresh unconstrained integers, out-of-range/uninitialised reads as reachability queries',
 }
